@@ -66,7 +66,7 @@ func main() {
 	}
 	if err := mon.SelfTest(); err != nil {
 		fmt.Printf("INCONCLUSIVE property=%s reason=harness self-test failed: %v\n", *prop, err)
-		os.Exit(2)
+		os.Exit(core.ExitInconclusive)
 	}
 	r := core.NewRun(*prop, *tier, seed)
 	r.Replay = rp
